@@ -100,6 +100,7 @@ class ClassInfo:
     class_attrs: dict[str, ast.expr] = field(default_factory=dict)
     outer: Optional["ClassInfo"] = None
     fields: list[tuple[str, Optional[ast.expr]]] = field(default_factory=list)   # annotated names, in order
+    all_defs: list["FuncInfo"] = field(default_factory=list)    # every def of the body, same-named ones included
 
 
 class ProgramModel:
@@ -112,6 +113,7 @@ class ProgramModel:
         self.functions: dict[str, FuncInfo] = {}         # by qualified name
         self.func_by_name: dict[str, list[FuncInfo]] = {}
         self.env_digests: dict[str, str] = {}
+        self.module_defs: dict[str, list[FuncInfo]] = {}
         self._load()
 
     # -- loading -----------------------------------------------------------------------------
@@ -165,6 +167,12 @@ class ProgramModel:
                 self._index_class(u, node, None)
             elif isinstance(node, (ast.FunctionDef, ast.AsyncFunctionDef)):
                 fi = FuncInfo(f"{u.mod}.{node.name}", node.name, node, u)  # type: ignore[arg-type]
+                if fi.qual in self.functions:               # a later def of the same name (e.g. `def _` registered
+                    fi.qual += f"@{node.lineno}"            # with a dispatcher): kept under a distinct key
+                    self.module_defs.setdefault(u.mod, []).append(fi)
+                    self.functions[fi.qual] = fi
+                    continue
+                self.module_defs.setdefault(u.mod, []).append(fi)
                 self.functions[fi.qual] = fi
                 self.func_by_name.setdefault(node.name, []).append(fi)
 
@@ -175,6 +183,11 @@ class ProgramModel:
         for st in node.body:
             if isinstance(st, (ast.FunctionDef, ast.AsyncFunctionDef)):
                 fi = FuncInfo(f"{qual}.{st.name}", st.name, st, u, ci)  # type: ignore[arg-type]
+                ci.all_defs.append(fi)
+                if st.name in ci.methods and any(".register" in ast.unparse(d) for d in st.decorator_list):
+                    fi.qual += f"@{st.lineno}"              # an implementation registered with a dispatcher
+                    self.functions[fi.qual] = fi
+                    continue
                 if any(ast.unparse(d).endswith((".setter", ".deleter")) for d in st.decorator_list):
                     fi.qual += ".setter"
                     ci.methods[st.name + ".setter"] = fi
